@@ -3,8 +3,9 @@
 
   Safety (prefix / EOF honesty / errors surface) is proved for all schedules of the two-endpoint
   system of Model/Pair.lean, whose wire may drop, delay, reorder *and duplicate* arbitrarily.
-  Liveness is false on the faithful model: the full statement is `C06_Live_Statement`, refuted by four
-  witnesses (F-C06-1, -2, -3, -5), each of which completes on the model with the repair flag set.
+  Liveness is false on the faithful model: the full statement is `C06_Live_Statement`, refuted by five
+  witnesses (F-C06-1 … -5); four of them complete on the model with their repair flag set, F-C06-4 (no
+  zero-window probe) has no small repair.
 -/
 import TvNetTcp.Proofs.PairStep
 import TvNetTcp.Model.Spec
@@ -310,6 +311,36 @@ set_option maxRecDepth 100000 in
 theorem witness_F_C06_5 : ¬ C06_Live_Statement cfgTightRetx := by
   intro h
   exact absurd (h witness_hsCounters) (by decide)
+
+def witness_staleWindow : List Op :=
+    [.listen 1 0 srv, .connect 0 0 0 srv, .egress, .deliver 0, .egress, .deliver 1, .cpoll 0 0,
+    .egress, .deliver 2, .accept 0 1, .write 0 [1, 2], .egress, .deliver 3, .egress, .deliver 4,
+    .read 1 1, .egress, .deliver 6, .deliver 5, .egress, .egress, .egress, .egress, .egress, .egress,
+    .read 1 1]
+
+def witness_staleWindow_repaired : List Op :=
+    [.listen 1 0 srv, .connect 0 0 0 srv, .egress, .deliver 0, .egress, .deliver 1, .cpoll 0 0,
+    .egress, .deliver 2, .accept 0 1, .write 0 [1, 2], .egress, .deliver 3, .egress, .deliver 4,
+    .read 1 1, .egress, .deliver 7, .deliver 5, .deliver 6, .egress, .egress, .egress, .egress,
+    .egress, .egress, .read 1 1]
+
+def cfgOneByteWindow : Cfg := { recvCap := 1 }
+
+set_option maxRecDepth 100000 in
+/-- F-C06-4: no loss, one packet held for one round. `recv_buf_cap = 1`: the receiver ACKs the first
+    byte with window 0, the reader frees it and a window update (window 1) follows; the update
+    overtakes the older zero-window ACK. The sender takes `snd_wnd` from whatever ACK arrives last, so
+    it ends up with a stale window of 0 while the receiver's window is open — and nothing ever probes
+    a zero window. The stall survives the re-ACK and window-update repairs (the same schedule,
+    packet ids re-derived, on the model with both flags set). -/
+theorem witness_F_C06_4 :
+    ¬ C06_Live_Statement cfgOneByteWindow ∧
+    ¬ C06_Live_Statement { cfgOneByteWindow with fixReack := true, fixWinUpdate := true } := by
+  constructor
+  · intro h
+    exact absurd (h witness_staleWindow) (by decide)
+  · intro h
+    exact absurd (h witness_staleWindow_repaired) (by decide)
 
 set_option maxRecDepth 100000 in
 /-- With the repairs switched on the same scenarios (same application calls, same loss; packet ids
